@@ -235,6 +235,8 @@ def main():
                        'dyadic cell sizes: dV exact', '2D inputs are refused by the tool and outside']
     rep.bounds = {'levels': '1-3', 'boxes_per_level': '1-3', 'cells': '<= 320 per level'}
     common.run_cases(rep, run_case, cases())
+    from harness import k_lemmas
+    k_lemmas.run_into(rep, ['k_pestle'])
     return rep.finish()
 
 
